@@ -4,6 +4,7 @@ from ..core import Case, TU, chunk, Cfg
 
 ID = 'C07'
 TYPES = [('float', 'f32'), ('double', 'f64'), ('int', 'i32'), ('long', 'i64')]
+CT = [('std::complex<float>', 'c32'), ('std::complex<double>', 'c64')]
 CORPUS = ['c01', 'c02', 'c03', 'c04', 'c05', 'c08', 'c09', 'c10', 'c11', 'c12', 'c13', 'c14', 'c15', 'c16', 'c17', 'c18', 'c19', 'c20']
 RULE = ('three placements: (P1) a seeded sample of the generated driver programs of every other property (matmul, element-wise, einsum, views read/write/noalias, index/mask views, SIMD types, lazy operators, '
         'inverse/LU/solve/QR, permute/transpose, networks, reductions, tmatmul, maps) rebuilt under ASan+UBSan at sse2/avx2/avx512 -O1 and avx2 -O2 -- here ONLY memory events are judged: sanitizer reports, '
@@ -71,6 +72,9 @@ def generate(seed, tier):
     for i, n in enumerate(sizes):
         for tn, tk in ([TYPES[i % 4], TYPES[(i + 2) % 4]] if quick else TYPES):
             cases.append(Case('C07|map1d|%s|%d' % (tk, n), 'VP_CASE("@KEY@", vp::c07::map1d<%s,%d>);' % (tn, n)))
+    for i, n in enumerate([1, 2, 3, 4, 5, 7, 8, 9, 16, 17]):
+        for tn, tk in ([CT[(i + seed) % 2]] if quick else CT):
+            cases.append(Case('C07|map1d-cplx|%s|%d' % (tk, n), 'VP_CASE("@KEY@", vp::c07::map1d_cplx<%s,%d>);' % (tn, n)))
     for i, (m, k, n) in enumerate([(1, 1, 1), (3, 3, 3), (5, 3, 7), (2, 9, 17), (7, 5, 15), (9, 2, 33), (17, 3, 5), (2, 2, 2), (4, 4, 4), (8, 8, 8), (16, 16, 16)]):
         for tn, tk in ([TYPES[(i + seed) % 4]] if quick and m != n else TYPES):
             cases.append(Case('C07|map2d|%s|%dx%dx%d' % (tk, m, k, n), 'VP_CASE("@KEY@", vp::c07::map2d<%s,%d,%d,%d>);' % (tn, m, k, n)))
